@@ -52,6 +52,45 @@ def make_op(d, prog: GProg, selection: Optional[dict]):
     return lambda: d.executor(**kw)()
 
 
+def conf_build_prog(prog: GProg, conf: dict) -> GProg:
+    """The program as it is BUILT when attributes are later set through config_from_dict: initial is_sequential / priority
+    from conf["init"], and (via='tag') a tag shared by all nodes that end up with the same (is_sequential, priority)."""
+    from dataclasses import replace as _r
+    nodes = []
+    groups = {}
+    for i, nd in enumerate(prog.nodes):
+        init_seq = conf["init"]["seq"][i]
+        init_prio = conf["init"]["prio"][i]
+        tag = nd.tag
+        if conf.get("via") == "tag":
+            g = groups.setdefault((nd.seq, nd.prio), f"g{len(groups)}")
+            tag = g
+        nodes.append(_r(nd, seq=bool(init_seq), prio=init_prio, tag=tag))
+    return _r(prog, nodes=tuple(nodes))
+
+
+def conf_apply(d, prog: GProg, bprog: GProg, conf: dict) -> None:
+    """config_from_dict towards the attributes of `prog` (the reference), for the configured subset of nodes."""
+    ids = prog.ids()
+    which = conf.get("nodes")
+    entries = {}
+    for i, nd in enumerate(prog.nodes):
+        if which is not None and i not in which:
+            continue
+        b = bprog.nodes[i]
+        if which is None and (b.seq, b.prio) == (nd.seq, nd.prio):
+            continue
+        alias = bprog.nodes[i].tag if conf.get("via") == "tag" else ids[i]
+        entry = {}
+        if conf.get("keys", "both") in ("both", "seq"):
+            entry["is_sequential"] = nd.seq
+        if conf.get("keys", "both") in ("both", "prio"):
+            entry["priority"] = nd.prio
+        entries[alias] = entry
+    if entries:
+        d.config_from_dict({"nodes": entries})
+
+
 def selection_set(prog: GProg, selection: Optional[dict]):
     """Reference set of participating node indices of a selection (None = all)."""
     if selection is None:
@@ -90,14 +129,39 @@ def run_case(acc, c: dict, monitors: List[Callable], nontrivial: Optional[Callab
     src = prog.source()
     lines = src_lines_of(prog, src)
     sel = selection_set(prog, selection)
+    if debug_on and selection is not None and sel is not None and any(nd.debug for nd in prog.nodes):
+        # which debug nodes are pulled into a sub-graph run is not specified; once pulled in they take part like any node
+        from tawazi import cfg as _cfg
+        _cfg.RUN_DEBUG_NODES = True
+        try:
+            d0, _ = build_gprog(prog)
+            ids0 = prog.ids()
+            kw0 = {}
+            for key, name in (("T", "target_nodes"), ("X", "exclude_nodes"), ("R", "root_nodes")):
+                if selection.get(key) is not None:
+                    kw0[name] = [ids0[i] for i in selection[key]]
+            pulled = {ids0.index(x) for x in d0.executor(**kw0).graph.nodes if x in ids0 and prog.nodes[ids0.index(x)].debug}
+            sel = set(sel) | pulled
+        finally:
+            _cfg.RUN_DEBUG_NODES = False
     has_setup = any(nd.setup for nd in prog.nodes)
     rebuild_each = has_setup or warm > 0
-    ref0 = None if warm else prog.ref_run(sel, None, debug_on)
+    ref0 = None if (warm or c.get("deferred_setup")) else prog.ref_run(sel, None, debug_on)
     state = {"d": None, "ns": None, "pre": None}
     cfg.RUN_DEBUG_NODES = debug_on
 
+    conf = c.get("conf")
+    if conf:
+        bprog = conf_build_prog(prog, conf)
+
     def fresh():
         state["d"], state["ns"] = build_gprog(bprog, noloc=c.get("noloc", False))
+        if conf:
+            if conf.get("after_warm"):
+                r0 = H.run_controlled(make_op(state["d"], bprog, None), is_async=prog.is_async)
+                if r0.outcome != "return":
+                    raise H.HarnessError(f"warm-up call before config did not return: {r0.outcome} {r0.exc!r}")
+            conf_apply(state["d"], prog, bprog, conf)
         if reconf:
             if reconf.get("via") == "attr":
                 state["d"].max_concurrency = reconf["mc"]
@@ -118,6 +182,26 @@ def run_case(acc, c: dict, monitors: List[Callable], nontrivial: Optional[Callab
             state["pre"] = pre
 
     idx = {s_: i for i, s_ in enumerate(prog.ids())}
+    deferred = c.get("deferred_setup", False)
+    if deferred:
+        rebuild_each = True
+        _fresh0 = fresh
+
+        def fresh():  # noqa: F811
+            _fresh0()
+            d_ = state["d"]
+            state["ex"] = d_.executor()  # constructed BEFORE the setup nodes run ...
+            r = H.run_controlled(make_op(d_, prog, {"setup": True}), is_async=prog.is_async)  # ... then dag.setup()
+            if r.outcome != "return":
+                raise H.HarnessError(f"setup() did not return: {r.outcome} {r.exc!r}")
+            pre = {}
+            for e in r.trace:
+                if e[0] == "enter":
+                    i = idx.get(e[1])
+                    if i is not None and prog.nodes[i].setup:
+                        pre[i] = e[2]
+            state["pre"] = pre
+
     fresh()
     sc = StateCounter()
     nexec = 0
@@ -127,6 +211,14 @@ def run_case(acc, c: dict, monitors: List[Callable], nontrivial: Optional[Callab
             fresh()
         H.Tok.FALSY = set(prog.falsy)
         op = make_op(state["d"], prog, selection)
+        if deferred:
+            ex_ = state["ex"]
+            if prog.is_async:
+                async def op():  # noqa: F811
+                    return await ex_()
+            else:
+                def op():  # noqa: F811
+                    return ex_()
         res = H.run_controlled(op, prefix=prefix, is_async=prog.is_async, batch_order=batch_order, early=bool(early))
         if res.outcome in ("hang", "spin"):
             fresh()
@@ -189,6 +281,12 @@ def replay_case(c: dict, monitors: List[Callable], prefix, prog: Optional[GProg]
             else:
                 d.config_from_dict({"max_concurrency": reconf["mc"]})
             prog = _replace(prog, mc=reconf["mc"])
+        elif c.get("conf"):
+            bprog = conf_build_prog(prog, c["conf"])
+            d, ns = build_gprog(bprog, noloc=c.get("noloc", False))
+            if c["conf"].get("after_warm"):
+                H.run_controlled(make_op(d, bprog, None), is_async=prog.is_async)
+            conf_apply(d, prog, bprog, c["conf"])
         else:
             d, ns = build_gprog(prog, noloc=c.get("noloc", False))
         src = prog.source()
